@@ -6,3 +6,6 @@ import SpecVerif.Props.C15
 import SpecVerif.Props.C18
 import SpecVerif.Props.C11
 import SpecVerif.Props.C12
+import SpecVerif.Props.C06
+import SpecVerif.Props.C09
+import SpecVerif.Props.C10
